@@ -78,7 +78,7 @@ def known_match(known, prop, cfg, op_line, msg, ctx=None):
         if k.get("kind") != "finding" or prop not in k.get("properties", [k.get("property")]):
             continue
         m = k.get("match", {})
-        if "op" in m and not any(op_line.split(" ")[0].lstrip("!0123456789 ") == o or op_line.split(" ")[1 if op_line.startswith("!") else 0] == o for o in m["op"]):
+        if "op" in m and not any(op_line.split(" ")[0].lstrip("!0123456789+ ") == o or op_line.split(" ")[1 if op_line.startswith("!") else 0] == o for o in m["op"]):
             continue
         if "msg" in m and not any(s in msg for s in m["msg"]):
             continue
@@ -94,7 +94,7 @@ def known_match(known, prop, cfg, op_line, msg, ctx=None):
             continue
         if m.get("pos_lt_size"):
             # op line: <op> <container> <pos> ...; the finding only covers insertion strictly before end()
-            toks = op_line.lstrip("!0123456789 ").split(" ")
+            toks = op_line.lstrip("!0123456789+ ").split(" ")
             try:
                 pos = int(toks[2])
             except (IndexError, ValueError):
@@ -146,10 +146,10 @@ def run_oracles(prop, tier, report, configs=None):
             nh += 1
             for s in h.steps:
                 ns += 1
-                opk = s.op.lstrip("!0123456789 ").split(" ")[0]
+                opk = s.op.lstrip("!0123456789+ ").split(" ")[0]
                 opkinds[opk] += 1
                 if not s.res.startswith("skip"):
-                    c0 = s.conts[int(s.op.lstrip("!0123456789 ").split(" ")[1])] if len(s.op.split(" ")) > 1 and s.op.lstrip("!0123456789 ").split(" ")[1].isdigit() and int(s.op.lstrip("!0123456789 ").split(" ")[1]) < len(s.conts) else ""
+                    c0 = s.conts[int(s.op.lstrip("!0123456789+ ").split(" ")[1])] if len(s.op.split(" ")) > 1 and s.op.lstrip("!0123456789+ ").split(" ")[1].isdigit() and int(s.op.lstrip("!0123456789+ ").split(" ")[1]) < len(s.conts) else ""
                     cls = c0.split(";")[:3]
                     distinct.add((name, opk, tuple(cls), s.res.split(":")[0]))
             fs = [f for f in h.failures() if f[1] in OWNED[prop]]
@@ -164,7 +164,7 @@ def run_oracles(prop, tier, report, configs=None):
                 continue
             nviol += 1
             import re as _re
-            key = (op_line.lstrip("!0123456789 ").split(" ")[0], _re.sub(r"[0-9,\[\]-]+", "#", msg)[:60])
+            key = (op_line.lstrip("!0123456789+ ").split(" ")[0], _re.sub(r"[0-9,\[\]-]+", "#", msg)[:60])
             if key in seen_keys or len(seen_keys) >= 8:
                 continue  # one replay per (operation kind, failure shape); the total is still reported
             seen_keys.add(key)
@@ -233,6 +233,19 @@ def run_faults(tier, report, configs=None):
                 lines.append("H " + hid)
                 lines += pre + ["!%d %s" % (k, op)] + POST
                 index[(name, hid)] = (pre, op, k)
+        # double faults, for element types whose moves throw: the roll-back in the handlers (shift_left, unshift_right, the
+        # destruction of what was built) is itself made to throw - after the k-th event, the j-th one that follows
+        if Cfg(name).cat == "NTM":
+            for i, (pre, op) in enumerate(scen[name]):
+                if op.split(" ")[0] not in ("insert", "insert_rv", "emplace", "insert_n", "insert_range", "erase", "erase_range", "swap", "move_assign", "ctor_move"):
+                    continue
+                te = te_of.get(i, 0)
+                for k in range(min(te, 6)):
+                    for j in range(3):
+                        hid = "g%d.%d.%d" % (i, k, j)
+                        lines.append("H " + hid)
+                        lines += pre + ["!%d+%d %s" % (k, j, op)] + POST
+                        index[(name, hid)] = (pre, op, "%d+%d" % (k, j))
         jobs2.append((name, lines))
     res2 = vecrun.run_scripts(jobs2)
     ns = nh = 0
@@ -272,14 +285,14 @@ def run_faults(tier, report, configs=None):
             if key in seen_keys or len(seen_keys) >= 8:
                 continue
             seen_keys.add(key)
-            script = pre + ["!%d %s" % (k, op)] + POST
-            report.violation({"config": name, "script": script, "failing_step": "!%d %s" % (k, op), "oracle": p, "observed": msg,
+            script = pre + ["!%s %s" % (k, op)] + POST
+            report.violation({"config": name, "script": script, "failing_step": "!%s %s" % (k, op), "oracle": p, "observed": msg,
                               "found_by": "fault-enumeration", "no_failing_input_found": False},
-                             "%s throw index %d in `%s` (after %s): %s" % (name, k, op, " ; ".join(pre), msg))
+                             "%s throw index %s in `%s` (after %s): %s" % (name, k, op, " ; ".join(pre), msg))
         if hs and len(samples) < 3:
             h = hs[len(hs) // 2]
             pre, op, k = index.get((name, h.hid), ([], "?", -1))
-            samples.append({"config": name, "scenario": pre + ["!%d %s" % (k, op)], "outcome": [s.res for s in h.steps if s.op.startswith("!")]})
+            samples.append({"config": name, "scenario": pre + ["!%s %s" % (k, op)], "outcome": [s.res for s in h.steps if s.op.startswith("!")]})
     return {
         "evaluations": nh,
         "steps": ns,
